@@ -20,6 +20,7 @@ type Contract struct {
 	Sig        *types.Signature // for interface / external targets
 	Props      []string
 	Impls      []string
+	InlineKnown bool
 	Trusted    bool
 	Modifies   []string
 	Lemma      bool
@@ -64,6 +65,7 @@ type SpecDB struct {
 	fieldFns   map[string]*ssa.Function // field array name -> spec function standing for calls through that func-typed field
 	getters    map[string]bool
 	detFns     map[string]bool
+	stubs      map[string]*ssa.Function
 	assumeAssert map[string]bool
 	dynCalls   map[string]*ssa.Function // "fn#k" -> spec function for the k-th dynamic call in fn
 	curProps   []string
@@ -187,7 +189,7 @@ func findFunc(prog *ssa.Program, all map[string]*ssa.Function, name string) *ssa
 }
 
 func buildSpecDB(prog *ssa.Program, pkgs []*packages.Package, allFns map[string]*ssa.Function) *SpecDB {
-	db := &SpecDB{contracts: map[string]*Contract{}, pure: map[string]bool{}, uninterp: map[string]bool{}, guards: map[string]map[int]int{}, invariants: map[string][]*ssa.Function{}, loopAnns: map[string]*LoopAnn{}, pureExts: map[string]bool{}, nullable: map[string]bool{}, lockCache: map[*ssa.Function]bool{}, tables: map[string]bool{}, effectFree: map[string]bool{}, fieldFns: map[string]*ssa.Function{}, getters: map[string]bool{}, dynCalls: map[string]*ssa.Function{}, detFns: map[string]bool{}, assumeAssert: map[string]bool{}}
+	db := &SpecDB{contracts: map[string]*Contract{}, pure: map[string]bool{}, uninterp: map[string]bool{}, guards: map[string]map[int]int{}, invariants: map[string][]*ssa.Function{}, loopAnns: map[string]*LoopAnn{}, pureExts: map[string]bool{}, nullable: map[string]bool{}, lockCache: map[*ssa.Function]bool{}, tables: map[string]bool{}, effectFree: map[string]bool{}, fieldFns: map[string]*ssa.Function{}, getters: map[string]bool{}, dynCalls: map[string]*ssa.Function{}, detFns: map[string]bool{}, stubs: map[string]*ssa.Function{}, assumeAssert: map[string]bool{}}
 	db.inlineExts = []string{"github.com/fatedier/golib/errors", "github.com/samber/lo"}
 	seen := map[string]bool{}
 	packages.Visit(pkgs, nil, func(p *packages.Package) {
@@ -275,6 +277,10 @@ func (db *SpecDB) readFile(prog *ssa.Program, p *packages.Package, spkg *ssa.Pac
 				if con != nil {
 					con.Trusted = true
 				}
+			case "inline-known":
+				if con != nil {
+					con.InlineKnown = true
+				}
 			case "preserves":
 				if con != nil {
 					con.Preserves = append(con.Preserves, dir[1:]...)
@@ -303,6 +309,12 @@ func (db *SpecDB) readFile(prog *ssa.Program, p *packages.Package, spkg *ssa.Pac
 				db.pure[fn.String()] = true
 			case "uninterp":
 				db.uninterp[fn.String()] = true
+			case "stub":
+				// stub <target>: calls to target run this function instead (trusted
+				// replacement for code outside the engine's reach, e.g. reflection)
+				if len(dir) >= 2 {
+					db.stubs[expandName(dir[1])] = fn
+				}
 			case "dyncall":
 				// dyncall <target> <k>: this function specifies the k-th dynamic call in target
 				if len(dir) >= 3 {
